@@ -37,20 +37,33 @@ MCNext == \/ \E o \in Objs, r \in Rounds : Len(calls) < MaxCalls /\ Call(o, r)
           \/ \E k \in DOMAIN calls : Stop(k) \/ \E v \in calls[k].set : Fire(k, v)
           \/ \E d \in Steps : now + d <= MaxTime /\ Advance(d)
 MCSpec == MCInit /\ [][MCNext]_vars
-(* VIEW: the bookkeeping of calls that are over (fired / stopped: when, since when) does not influence the future; the
-   truth of Safety is part of the view. *)
-CallView(k) == IF Armed(k) THEN calls[k] ELSE [o |-> calls[k].o, r |-> calls[k].r, t |-> IF Kind(calls[k].o) = "eager" THEN calls[k].t ELSE 0, nf |-> calls[k].nf]
-View == <<cfg, now, [k \in DOMAIN calls |-> CallView(k)], first, waiting, Safety>>
+(* VIEW: calls are identified up to their position in the sequence.  The future depends on the bag of armed calls (with
+   their bookkeeping), on the number of calls made, per (object, round) on how many calls there were (0, 1, more) and when the
+   first one was made (eager policy on relative time), on the memory `first` -- not on the order or the bookkeeping of the calls
+   that are over.  The truth of Safety is part of the view, so a violating state is never identified with a good one. *)
+ArmedIdx == {k \in DOMAIN calls : Armed(k)}
+ArmedBag == {<<calls[k], Cardinality({j \in ArmedIdx : calls[j] = calls[k]})>> : k \in ArmedIdx}
+Odd == {calls[k] : k \in waiting \ ArmedIdx}
+Hist == [o \in Objs, r \in Rounds |->
+           LET P == Prior(o, r) IN
+             IF P = {} THEN <<0, 0>>
+             ELSE <<IF Cardinality(P) >= 2 THEN 2 ELSE 1, IF Kind(o) = "eager" /\ ~UsesTiming(o) THEN calls[MinOf(P)].t ELSE 0>>]
+View == <<cfg, now, Len(calls), ArmedBag, Odd, Hist, first, Safety>>
+CornerRounds == {-1, 0, 1}
 
 (* coded corners, as observations (documentation silent): a round whose duration is <= 0 fires at once *)
-CornerFiresAtOnce == \A k \in DOMAIN calls : (calls[k].r <= 0 /\ Kind(calls[k].o) # "inc") => calls[k].set = {calls[k].t}
+CornerFiresAtOnce == \A k \in DOMAIN calls : (calls[k].r <= 0 /\ Kind(calls[k].o) # "eager" /\ Timeout(calls[k].o, calls[k].r) <= 0) => calls[k].set = {calls[k].t}
 
 (* Liveness: with a clock that keeps going, every armed channel whose deadline lies within the model's horizon fires
    (or is stopped). *)
-Fair == WF_vars(\E d \in Steps : now + d <= MaxTime /\ Advance(d)) /\ \A k \in 1..MaxCalls : WF_vars(k \in DOMAIN calls /\ \E v \in calls[k].set : Fire(k, v))
+FireK(k) == IF k \in DOMAIN calls THEN \E v \in calls[k].set : Fire(k, v) ELSE FALSE
+Fair == WF_vars(\E d \in Steps : now + d <= MaxTime /\ Advance(d)) /\ \A k \in 1..MaxCalls : WF_vars(FireK(k))
 FairSpec == MCSpec /\ Fair
 Horizon == MaxTime - (CHOOSE s \in Steps : \A x \in Steps : s >= x)
-EveryTimerFires == \A k \in 1..MaxCalls : (k \in DOMAIN calls /\ \A a \in calls[k].set : a <= Horizon) ~> (calls[k].nf > 0 \/ calls[k].stopAt # -1)
+InHorizon(k) == IF k \in DOMAIN calls THEN \A a \in calls[k].set : a <= Horizon ELSE FALSE
+Fired(k) == IF k \in DOMAIN calls THEN calls[k].nf > 0 ELSE FALSE
+Over(k) == IF k \in DOMAIN calls THEN calls[k].nf > 0 \/ calls[k].stopAt # -1 ELSE FALSE
+EveryTimerFires == \A k \in 1..MaxCalls : InHorizon(k) ~> Over(k)
 \* NOT a property (control): stopped channels fire too
-StoppedFire == \A k \in 1..MaxCalls : (k \in DOMAIN calls /\ \A a \in calls[k].set : a <= Horizon) ~> (calls[k].nf > 0)
+StoppedFire == \A k \in 1..MaxCalls : InHorizon(k) ~> Fired(k)
 ====
